@@ -11,7 +11,8 @@ FACTOR_KINDS = ["conjugate", "onerank", "linear", "constant", "measure", "pdf"]
 def gt():
     import gaussian_toolbox
     from gaussian_toolbox import factor, measure, pdf, conditional
-    assert gaussian_toolbox.__file__.startswith("/repo/"), gaussian_toolbox.__file__
+    import os
+    assert gaussian_toolbox.__file__.startswith(os.environ.get("GTVERIF_REPO", "/repo").rstrip("/") + "/"), gaussian_toolbox.__file__
     return factor, measure, pdf, conditional
 
 
